@@ -55,6 +55,10 @@ pub struct Commit {
 	pub applied_wal: Option<u64>,
 	/// horizon of the transaction when it began
 	pub start_seq: u64,
+	/// (failed commits, finding F5) false once the unchanged code has surely retired the log
+	/// segment holding the failed commit's record at the crash point under judgement: from
+	/// then on the record must not come back. Set per crash image by the judge.
+	pub ghost_ok: bool,
 }
 
 impl Commit {
